@@ -98,4 +98,36 @@ mod verif_native_strategy {
         strategy.run(network).unwrap();
         assert!(sent.load(Ordering::SeqCst) >= 3, "no probe was sent in 3 rounds (first_ttl=30, max_inflight=24)");
     }
+
+    //@witness core_strategy lemma_prev_round_rejected_wrap_tcp
+    /// C07 (known finding D-C07): TCP rounds with many re-issued probes; after the sequence wrap a sequence issued in the
+    /// immediately preceding round is again in_round *and* issued in the current round.
+    #[test]
+    fn w_c07_tcp_wrap_overlap() {
+        let c = StrategyConfig {
+            protocol: Protocol::Tcp,
+            port_direction: PortDirection::FixedDest(Port(80)),
+            initial_sequence: Sequence(64511),
+            ..cfg()
+        };
+        let mut st = state::TracerState::new(c);
+        // round A: 1 probe + 400 re-issues (port collisions): sequences 64511..64912, no wrap
+        let _ = st.next_probe(SystemTime::now());
+        for _ in 0..400 { let _ = st.reissue_probe(SystemTime::now()); }
+        st.advance_round(TimeToLive(1));
+        // round B: starts at 64912, 1 probe + 300 re-issues: sequences 64912..65213 >= MAX_SEQUENCE -> wrap at the end
+        let _ = st.next_probe(SystemTime::now());
+        for _ in 0..300 { let _ = st.reissue_probe(SystemTime::now()); }
+        assert!(st.in_round(Sequence(64960))); // 64960 is issued in round B
+        st.advance_round(TimeToLive(1));
+        // round C: restarts at 64511; 30 probes, each re-issued 14 times before it is sent: the slots at
+        // offsets 14, 29, ..., 449 are Awaited; offset 439 + ... -> sequence 64511 + 449 = 64960 was issued in round B
+        for _ in 0..30 {
+            let _ = st.next_probe(SystemTime::now());
+            for _ in 0..14 { let _ = st.reissue_probe(SystemTime::now()); }
+        }
+        let late = Sequence(64960);
+        let accepted = st.in_round(late) && matches!(st.probe_at(late), ProbeStatus::Awaited(_));
+        assert!(!accepted, "sequence 64960 of the preceding round is accepted for a probe of the current round");
+    }
 }
